@@ -71,6 +71,11 @@ def run_one(check, scn, want_events=False):
     """Execute one scenario. Returns a result dict. Never raises for things the
     scenario does; harness problems come back as result['harness_error']."""
     replay = scn.get("decisions") if scn.get("mode") == "replay" else None
+    try:
+        from checks import common as _common
+        _common.set_family(bool(scn.get("v4")) and getattr(check, "SUPPORTS_V4", False))
+    except ImportError:
+        pass
     sim = Sim(scn.get("run_seed", 0), replay=replay)
     res = {"violations": [], "harness_error": None}
     old = signal.signal(signal.SIGALRM, _alarm)
